@@ -86,7 +86,7 @@ impl ResponseOutputFormat {
                         .join(",")
                 };
 
-                if !errors.is_empty() {
+                if !errors.is_empty() && response.get("error").is_none() {
                     response["error"] = json![{"csv": json![errors]}];
                 }
                 Ok(row)
